@@ -1,6 +1,6 @@
 """C07 - errors and panics surface once as an Error notification (DESIGN 6/C07): the fault plan <position, invocation index, kind> is enumerated by
 TLC in Pipeline.tla (Faults), each plan is executed on the real code with recover() around every harness call and a hang watchdog."""
-import vlib, parts_kernel, parts_creation, parts_pipeline as pp, common
+import vlib, parts_kernel, parts_detach, parts_creation, parts_pipeline as pp, common
 
 PID = 'C07'
 
@@ -11,6 +11,8 @@ def main(argv):
     pp.run(rep, PID, common.pipeline_cfgs(rep, 'faults'), modes='ctl-unsafe,ctl-safe,sync')
     # faults inside the FINAL OBSERVER's own callbacks (value callback at invocation 0..1, terminal callback), every instance, every script
     pp.run(rep, PID, common.pipeline_cfgs(rep, 'observer-faults'), modes='ctl-unsafe,sync')
+    # hand-off operators run user code on goroutines of their own: a finalizer that panics behind ObserveOn goes to the unhandled-error hook, it does not kill the process
+    parts_detach.trace_part(rep, PID, 300 if rep.tier == 'thorough' else 150, [rep.seed * 100 + 30])
     # creation operators incl. a synchronous source whose teardown / finalizer panics, subscribed directly: nothing escapes into the Subscribe call
     parts_creation.run(rep, PID, rep.tier == 'thorough')
     # kernel traces with panicking teardowns / contended terminals: no call may hang (a lock left held) - the watchdog's "hang" event is unexplainable
@@ -27,6 +29,8 @@ def main(argv):
 
 def replay(path):
     vlib.build_harness()
+    if path.endswith('.ndjson') and 'drive-detach' in path:
+        return parts_detach.replay_trace(PID, path)
     if path.endswith('.ndjson'):
         return parts_kernel.replay_trace(PID, path)
     import json
